@@ -179,7 +179,7 @@ Proof.
   assert (EC : Post (exit_loop (do_close (if sd then push s (partial_of cur) else s)))).
   { apply exit_loop_post. destruct sd; (eapply PInv_frame; [| |exact P]; reflexivity). }
   destruct o as [keep status| |status| | | | ].
-  - apply finish_fresh_post; assumption.
+  - destruct sd; [apply EP|apply finish_fresh_post; assumption].
   - destruct sd; [|apply finish_fresh_post; assumption].
     destruct (closed s); [apply EP|].
     destruct (push_frames _ {| r_id := id_of cur; r_status := 200; r_done := true |} C P T) as (C1 & P1 & T1).
@@ -240,7 +240,7 @@ Proof.
   assert (EC : PInv (exit_loop (do_close (if sd then push s (partial_of cur) else s)))).
   { apply exit_loop_post. destruct sd; (eapply PInv_frame; [| |exact P]; reflexivity). }
   unfold on_done. destruct o as [keep status| |status| | | | ].
-  - apply FF.
+  - destruct sd; [apply exit_loop_post, PP|apply FF].
   - destruct sd; [|apply FF].
     destruct (closed s); [apply exit_loop_post, PP|].
     apply payload_check_P; [apply Core_set_ka, Core_push; exact C|eapply PInv_frame; [| |exact P]; reflexivity].
